@@ -5,7 +5,7 @@ object not consumed).
 Layering
   * _EMSA_PKCS1_V1_5_ENCODE == spec.rfc8017.emsa_pkcs1_v15(digest_info(oid, with NULL?, H), emLen), error iff emLen < tLen + 11.
     The REAL code of Crypto.Util.asn1 (DerObject.__init__/encode, DerSequence.__init__/append/encode, DerNull, DerOctetString)
-    is executed symbolically; only two leaves of it are ASSUMED: DerObject._definite_form(n) == spec.der.encode_length(n)
+    is executed symbolically; only two leaves of it are ASSUMED: DerObject._definite_form(n) == spec.rfc8017.der_len(n)
     (X.690 definite minimal length octets) and DerObjectId(oid).encode() == spec.rfc8017.oid_der(oid) (the asn1 area, C13).
   * PKCS115_SigScheme.verify: ValueError iff not spec.rfc8017.rsassa_pkcs1_v15_valid(n, e, S, oid, H)  (8.2.2 step by step).
   * PKCS115_SigScheme.sign: byte-exact I2OSP(OS2IP(EM)^d mod n, k) through the ASSUMED value contract of
@@ -34,8 +34,8 @@ K_ = S + 'octets(%s)' % N_
 def add_der_leaves(reg):
     ASN1 = 'DER encoders of Crypto.Util.asn1 (to be proved by the asn1 area under C13; no bounded harness: unchecked)'
     reg.add(Contract(A + 'DerObject._definite_form', params={'length': 'nat'}, requires=['length >= 0'],
-                     returns='spec.der.encode_length(length)', modifies=[],
-                     # spec.der.encode_length stays opaque in every proof here; its short form (X.690 8.1.3.4: one octet for
+                     returns='spec.rfc8017.der_len(length)', modifies=[],
+                     # spec.rfc8017.der_len stays opaque in every proof here; its short form (X.690 8.1.3.4: one octet for
                      # lengths 0..127) is the one instance the proofs need (NULL == 05 00)
                      ensures={'short_form': 'length < 128 ==> result == bytes([length])'},
                      assumed='X.690 8.1.3 definite form, minimal number of length octets; ' + ASN1))
@@ -66,7 +66,7 @@ def add_emsa(reg):
                               'length': 'len(result) == emLen',
                               'ps_min': 'emLen - len(%s) - 3 >= 8' % t},
                      returns='%semsa_pkcs1_v15(%s, emLen)' % (S, t),
-                     modifies=[], opaque=['spec.der.encode_length']))
+                     modifies=[], opaque=['spec.rfc8017.der_len']))
 
 
 # ---------------------------------------------------------------- the scheme object
@@ -78,7 +78,7 @@ def add_scheme(reg):
                      raises={'ValueError': ('iff', 'not ' + valid)},
                      ensures={'none': 'result is None'},
                      modifies=[],
-                     opaque=['spec.der.encode_length', S + 'digest_info']))
+                     opaque=['spec.rfc8017.der_len', S + 'digest_info']))
     em = S + 'rsassa_pkcs1_v15_em(%s, msg_hash.oid.g_id, %s)' % (K_, H)
     fits = S + 'emsa_pkcs1_v15_fits(%s, %s)' % (T('True'), K_)
     sig = 'i2osp(pow(be(%s), %s, %s), %s)' % (em, D_, N_, K_)
@@ -99,7 +99,7 @@ def add_scheme(reg):
                               'verifies': 'pow(be(result), %s, %s) == be(%s)' % (E_, N_, em)},
                      modifies=[],
                      options={'int_lemmas': []},
-                     opaque=['spec.der.encode_length', S + 'digest_info']))
+                     opaque=['spec.rfc8017.der_len', S + 'digest_info']))
 
 
 # ---------------------------------------------------------------- RsaKey primitives
